@@ -50,10 +50,10 @@ Qed.
 
 Definition bid_of (b : nat) : option nat := match b with O => None | S _ => Some b end.
 
-Definition mk_slot (f : nat) (addr_zero time_zero sig_empty : bool) (signer : option nat) : slot :=
+Definition mk_slot (f : nat) (addr_zero : bool) (addr : option nat) (time_zero sig_empty : bool) (signer : option nat) : slot :=
   mkSlot (match f with
           | 1%nat => FAbsent | 2%nat => FCommit | 3%nat => FNil | _ => FUnknown end)
-         addr_zero time_zero sig_empty signer.
+         addr_zero addr time_zero sig_empty signer.
 
 Definition mk_commit (h r b : nat) (sl : list slot) : commit nat := mkCommit nat h r (bid_of b) sl.
 
